@@ -204,7 +204,7 @@ def rssi(r) -> str:
 # corruption: 1-3 edits that keep the line "within a few edits of a valid frame"
 # ---------------------------------------------------------------------------------------
 
-EDITS = ["shorten", "lengthen", "addrset", "addrblank", "hexflip", "addrflip", "lenfield", "truncate", "dropspace", "dblspace", "rssigarbage", "nonascii",
+EDITS = ["codeflip", "shorten", "lengthen", "addrset", "addrblank", "hexflip", "addrflip", "lenfield", "truncate", "dropspace", "dblspace", "rssigarbage", "nonascii",
          "blank", "comment", "errnote", "bang", "banner", "extend", "lower", "verb", "crcr", "nul", "hint"]
 
 
@@ -226,6 +226,10 @@ def corrupt(line: str, r, n_edits: int | None = None) -> tuple[str, list[str]]:
                 pl = pl + r.choice(["00", "FF", pl[:2], "7FFF"])
             if 0 < len(pl) <= 96:
                 s = f"{s[:46]}{len(pl) // 2:03d} {pl}{rest}"
+        elif k == "codeflip" and len(s) > 46 and s[40] == " " and s[45] == " ":
+            # one hex digit of the code: a structurally valid frame of a code nobody defined
+            i = r.randrange(41, 45)
+            s = s[:i] + r.choice([c for c in HEX if c != s[i]]) + s[i + 1:]
         elif k == "addrset" and len(s) > 40:
             a = [s[11:20], s[21:30], s[31:40]]
             x = r.choice([a[0], a[1], a[2], "01:145038"])
